@@ -135,9 +135,11 @@ func fullSearches(rep *report.Report, tier string, ck *Clock, checks Checks, hoo
 
 // ribInits are non-initial start states shared by the RIB-tier searches.
 var ribInits = map[string][]string{
-	"held-operations":   {"ADD v4 p@D ->1", "ADD v4 p@D ->1 meta", "ADD v6 q@D ->1", "ADD nhg1@D {1,2}", "ADD v4 p@V ->1@D"},
-	"groups-installed":  {"ADD nh1@D a", "ADD nh2@D", "ADD nh1@V", "ADD nhg1@D {1,2}", "ADD nhg1@V {1}"},
-	"entries-installed": {"ADD nh1@D a", "ADD nh2@D", "ADD nh1@V", "ADD nhg1@D {1,2}", "ADD nhg1@V {1}", "ADD v4 p@D ->1 meta", "ADD v4 p@V ->1@D", "ADD v6 q@D ->1", "ADD mpls 100@D ->1"},
+	"held-operations":  {"ADD v4 p@D ->1", "ADD v4 p@D ->1 meta", "ADD v6 q@D ->1", "ADD nhg1@D {1,2}", "ADD v4 p@V ->1@D"},
+	"groups-installed": {"ADD nh1@D a", "ADD nh2@D", "ADD nh1@V", "ADD nhg1@D {1,2}", "ADD nhg1@V {1}"},
+	// asymmetric on purpose: the second network instance exists but is EMPTY
+	"groups-in-default-only": {"ADD nh1@D a", "ADD nh2@D", "ADD nhg1@D {1,2}"},
+	"entries-installed":      {"ADD nh1@D a", "ADD nh2@D", "ADD nh1@V", "ADD nhg1@D {1,2}", "ADD nhg1@V {1}", "ADD v4 p@D ->1 meta", "ADD v4 p@V ->1@D", "ADD v6 q@D ->1", "ADD mpls 100@D ->1"},
 }
 
 var c02Letters = []string{
@@ -275,7 +277,7 @@ var c16Letters = []string{
 // RunC16 decides the post-change-hook half of C16 at the RIB tier.
 func RunC16(rep *report.Report, tier string) {
 	depth := 4
-	ck := NewClock(tier, 100*time.Second, 20*time.Minute, 16)
+	ck := NewClock(tier, 100*time.Second, 20*time.Minute, 18)
 	if tier == "thorough" {
 		depth = 7 // (budget-bounded: the search reports the depth it completed)
 	}
@@ -297,7 +299,7 @@ func RunC16(rep *report.Report, tier string) {
 	// resolved-entry hook (runs in its own goroutine): whole histories under the controlled runtime
 	rl := Alphabet("ADD nh1@D a", "ADD nhg1@D {1}", "ADD nh1@V", "ADD nhg1@V {1}", "ADD v4 p@D ->1", "ADD v4 p@D ->1 meta", "ADD v4 p@D ->1@V", "DELETE v4 p@D", "ADD v4 p@V ->1",
 		"ADD v6 q@D ->1", "DELETE v6 q@D", "ADD mpls 100@D ->1", "DELETE mpls 100@D", "DELETE nhg1@D", "FLUSH D", "FLUSH all")
-	for _, name := range []string{"held-operations", "entries-installed", ""} {
+	for _, name := range []string{"held-operations", "entries-installed", "groups-in-default-only", ""} {
 		d := depth - 2
 		if name == "" {
 			d = depth - 1
@@ -311,7 +313,7 @@ func RunC16(rep *report.Report, tier string) {
 		res := mc.BFS(mc.Config{Letters: Names(rl), New: NewResolved(o), MaxDepth: d, Deadline: ck.Next(), Workers: 1})
 		Merge(rep, label, res, d)
 	}
-	for _, name := range []string{"entries-installed", ""} {
+	for _, name := range []string{"entries-installed", "groups-in-default-only", ""} {
 		o := &Options{Letters: rl, Lag: true}
 		label, d := "resolved-entry-hook/lagging-consumer/from-empty", depth-1
 		if name != "" {
